@@ -3,6 +3,8 @@ package c18
 import (
 	"fmt"
 	"strings"
+	"sync"
+	"sync/atomic"
 	"time"
 
 	"mellium.im/xmpp/muc"
@@ -21,7 +23,7 @@ type forcedCase struct {
 }
 
 func runForced(c *core.Case) {
-	fc := &forcedCase{Kind: "forced", Scenario: []string{"M1", "M2", "M3", "M4", "M5", "M6", "M7", "M8", "M9"}[(c.Index/8)%9]}
+	fc := &forcedCase{Kind: "forced", Scenario: []string{"M1", "M2", "M3", "M4", "M5", "M6", "M7", "M8", "M9", "M10"}[(c.Index/8)%10]}
 	c.Sample(fc)
 	execForced(c, fc)
 }
@@ -231,6 +233,54 @@ func execForced(c *core.Case, fc *forcedCase) {
 		}
 		do(step{Op: "barrier"})
 		c.Count("forced_M9_reached", 1)
+	case "M10":
+		// Other goroutines of the application keep asking Joined() (every such
+		// call takes the client's lock) while the occupant leaves and joins the
+		// same address again as soon as Leave has returned.  What Join and Leave
+		// report and what Joined() says must agree at once, on the caller's own
+		// goroutine: joined from a successful join on, not joined once Leave has
+		// returned for the occupant's departure; and the join that follows a
+		// completed leave is a join like any other.
+		d.sampleAtReturn = true
+		if !joinNormally() {
+			break
+		}
+		var stop atomic.Bool
+		var hw sync.WaitGroup
+		first := d.chans[addr]
+		for k := 0; k < 6 && first != nil; k++ {
+			hw.Add(1)
+			go func() {
+				defer hw.Done()
+				for !stop.Load() {
+					first.Joined()
+				}
+			}()
+		}
+		for k := 0; k < 25 && !d.aborted; k++ {
+			l, j := fmt.Sprintf("l%d", k), fmt.Sprintf("j%d", k)
+			do(step{Op: "leave", Label: l})
+			if !do(step{Op: "seen", Label: l}) || !do(step{Op: "unavail"}) || !do(step{Op: "await", Label: l, Must: true}) {
+				break
+			}
+			if cl := d.calls[l]; cl != nil && cl.joinedAtRet != nil && *cl.joinedAtRet {
+				c.Violate("muc:leave:returned-while-still-reported-joined", "round %d: Leave returned nil for the occupant's departure, and Joined(), asked on the same goroutine right afterwards, still said true", k)
+				break
+			}
+			do(step{Op: "join", Label: j})
+			if !do(step{Op: "seen", Label: j}) || !do(step{Op: "self"}) || !do(step{Op: "await", Label: j, Must: true}) {
+				break
+			}
+			if cl := d.calls[j]; cl != nil && cl.joinedAtRet != nil && !*cl.joinedAtRet {
+				c.Violate("muc:join:returned-while-not-yet-reported-joined", "round %d: Join returned nil, and Joined(), asked on the same goroutine right afterwards, said false", k)
+				break
+			}
+			c.Count("leave_join_rounds_under_contention_for_the_client_lock", 1)
+		}
+		stop.Store(true)
+		hw.Wait()
+		do(step{Op: "barrier"})
+		c.Count("forced_M10_reached", 1)
 	case "M6", "M7", "M8":
 		// The room's answer to a join arrives in two transport writes and the
 		// caller gives up in between: M6 the error reply for the request id (its
